@@ -914,6 +914,7 @@ class Rewriter:
         b = self.sub('R2:ptr-cast', r'\s+as \*mut (?:\[T; N\]|T\b|str\b|dyn Any\b)', '', b)
         b = self.sub('R27:raw-reborrow', r'&mut \*(?=[\w:])', '', b)
         b = self.sub('R27:raw-reborrow', r'&\*(?=self\.0)', '', b)
+        b = self.desugar_combinators(b)      # R13 (only where the template switches it on)
         last = lambda fn: (lambda m_, a: '%s(%s)' % (fn, ', '.join(a + ['st'])))     # the ghost store goes LAST: nested calls borrow it first
         b = self.sub('R27:empty-slice', r'&mut \[\]', 'empty_slice_cell(st)', b)
         b = self.sub('R27:default-slice', r'\bBox::<\[u8\]>::default\(\)', 'Self::default_slice(st)', b)
@@ -940,6 +941,9 @@ class Rewriter:
         b = self.sub('R27:forward', r'\(\*\*self\)\.len\(\)', 'inner_len(self)', b)
         b = self.sub('R27:forward', r'\(\*\*self\)\.(write_\w+)\(([^()]*)\)', r'inner_\1(self, \2, st)', b)
         b = self.sub('R27:size_of', r'\b(?:core::)?mem::size_of::<T>\(\)', 'SIZE_OF_T()', b)
+        b = self.sub('R2:type-annotation', r"\blet (\w+): Box<'a, [^=;]+> = ", r'let \1 = ', b)
+        b = self.sub('R2:ptr-cast', r'\s+as \*mut dyn Any\b(?! \+)', '', b)
+        b = self.sub('R27:thread-store', r'\.downcast::<T>\(\)', '.downcast(st)', b)
         b = self.sub('R27:dangling', r'\b(?:core::)?ptr::NonNull::<T>::dangling\(\)\.as_ptr\(\)', 'dangling_ptr()', b)
         b = self.sub('R27:write-macro', r'\bwrite!\((\w+), "\{\}", &\*\*self\)', r'{ let mut f2__ = fresh_formatter(\1); inner_fmt_display(self, &mut f2__, st) }', b)
         b = self.sub('R27:write-macro', r'\bwrite!\((\w+), "\{:\?\}", &\*\*self\)', r'{ let mut f2__ = fresh_formatter(\1); inner_fmt_debug(self, &mut f2__, st) }', b)
